@@ -116,6 +116,7 @@ def lean_prove(pid, modules=None):
     """
     modules = modules or [f"TrustVerif.Props.{pid}"]
     res = {"ok": True, "obligations": 0, "discharged": 0, "theorems": [], "failures": [], "log": ""}
+    subprocess.run([sys.executable, os.path.join(VERIF, "gen_registry.py")], check=True)
     rc, log = sh(["lake", "build"] + modules + ["driver"], cwd=LEAN, timeout=3600)
     res["log"] = log
     if rc != 0:
